@@ -6,8 +6,11 @@ import z3
 from pyvc import vals as V
 from pyvc.unit import LoopSpec
 from pyvc.models import Fn
-from pyvc.core import box
-from contracts.c03 import MapperIter, FilterIter, HeaderIter, TailerIter, BatcherIter, is_coro
+from pyvc.core import box, St, Module, Unsupported
+from pyvc.vals import Val
+from contracts.c03 import StreamOp
+from contracts.c03 import MapperIter, FilterIter, HeaderIter, TailerIter, BatcherIter, UnbatcherIter, ShufflerIter, is_coro
+from pyvc.models import seqof
 
 FA = 'streamer/_streamer_async.py'
 
@@ -134,4 +137,238 @@ class AsyncBatcherIter(BatcherIter):
     qual = 'AsyncBatcher.__aiter__'
 
 
-UNITS = [AsyncMapperIter, AsyncMapperIterCoro, AsyncFilterIter, AsyncFilterIterCoro, AsyncHeaderIter, AsyncTailerIter, AsyncBatcherIter]
+class AsyncUnbatcherIter(UnbatcherIter):
+    """AsyncUnbatcher.__aiter__ over list/tuple elements (the sync operator's precondition): out == concatenation of the input lists.
+    The async code spells `yield from x` as an inner `for y in x: yield y`; the inner invariant is `out == out0 ++ x[:i]` with out0 / seen0 the values at
+    the entry of the inner loop (recorded when its entry obligation is generated, see AsyncTailerIter).  `isiterable(x)` is true for lists and tuples
+    (trusted: iter() of a list or tuple succeeds); elements that are *async* iterables take the other branch, which is outside this contract."""
+    prop = 'C16'
+    file = FA
+    qual = 'AsyncUnbatcher.__aiter__'
+    variant = 'list/tuple elements'
+    elems_sync = True
+    trusted = ('isiterable(x) is True for a list or a tuple (iter() succeeds on them)',)
+    canaries = (
+        ('yields the batch itself', '                for y in x:\n                    yield y', '                yield x', 'invariant preserved'),
+        ('yields every member twice', '                for y in x:\n                    yield y', '                for y in x:\n                    yield y\n                    yield y', 'invariant preserved'),
+    )
+
+    def setup(self, ex):
+        st = super().setup(ex)
+        ex.globals['isiterable'] = Fn(lambda ex2, st2, args, kwargs, node: [('ok', st2, z3.BoolVal(self.elems_sync))],
+                                      trusted=self.trusted[0])
+        return st
+
+    @property
+    def loops(self):
+        outer = super().loops[0]
+
+        def inv1(s, ex):
+            keys = [k for k in s.ghost if k.startswith('#i')]
+            i = s.ghost[keys[-1]]
+            if z3.is_int_value(i) and i.as_long() == 0:
+                self._out0, self._seen0, self._x0 = self.out(s), self.seen(s), seqof(box(ex, s.env['x']))
+            return z3.And(self.live(s), self.seen(s) == self._seen0, i >= 0, i <= z3.Length(self._x0),
+                          self.out(s) == z3.Concat(self._out0, z3.SubSeq(self._x0, 0, i)))
+        return {0: outer, 1: LoopSpec(inv=inv1, keep=('x',)), 2: LoopSpec(inv=inv1, keep=('x',))}
+
+
+class AsyncUnbatcherIterAsyncElems(AsyncUnbatcherIter):
+    """... over elements that are *async* iterables (isiterable(x) is False): the `async for y in x` branch.  Modelling assumption (stated, unchecked): such an
+    element is represented by the finite sequence of what it yields, and its own iteration does not fail; the contract is the same concatenation."""
+    variant = 'async-iterable elements'
+    elems_sync = False
+    trusted = ('isiterable(x) is False for an element that is only async-iterable; that element is modelled as the finite sequence it yields (its iteration does not fail)',)
+    canaries = (
+        ('members of an async element dropped', '                async for y in x:\n                    yield y', '                async for y in x:\n                    pass', 'invariant preserved'),
+    )
+
+
+class AsyncShufflerIter(ShufflerIter):
+    """AsyncShuffler.__aiter__: out is a permutation of the input (ShufflerIter's contract).  The final buffer is handed out by an explicit
+    `for x in buffer: yield x`; inner invariant `out == out0 ++ buffer0[:i]` with the entry values recorded as in AsyncTailerIter; the count of the
+    concatenation is the proved count lemma (unit C03:lemma(count)) instantiated at (out0, buffer0)."""
+    prop = 'C16'
+    file = FA
+    qual = 'AsyncShuffler.__aiter__'
+    canaries = (
+        ('loses the replaced element', '                yield y', '                pass', 'invariant preserved'),
+        ('overwrites without yielding the old one', 'y = buffer[idx]', 'y = x', 'invariant preserved'),
+        ('final buffer not flushed', '            for x in buffer:\n                yield x', '            pass', 'permutation'),
+    )
+
+    @property
+    def loops(self):
+        first = super().loops[0]
+
+        def inv1(s, ex):
+            keys = [k for k in s.ghost if k.startswith('#i')]
+            i = s.ghost[keys[-1]]
+            if z3.is_int_value(i) and i.as_long() == 0:
+                self._out0, self._seen0, self._b0 = self.out(s), self.seen(s), s.env['buffer']
+                self.__dict__.setdefault('_entries', []).append((self._out0, self._b0))
+            return z3.And(self.src.done(s), self.seen(s) == self._seen0, i >= 0, i <= z3.Length(self._b0),
+                          self.out(s) == z3.Concat(self._out0, z3.SubSeq(self._b0, 0, i)))
+        return {0: first, 1: LoopSpec(inv=inv1, keep=('buffer', 'randrange'))}
+
+    def post(self, ex, outs):
+        for k, s, p in outs:
+            if k in ('normal', 'return'):
+                for o0, b0 in getattr(self, '_entries', ()):
+                    s.assume(self.cnt.concat_fact(o0, b0))      # instance of the proved lemma count(a ++ b) == count(a) + count(b)
+        super().post(ex, outs)
+
+
+class AsyncGrouperIter(StreamOp):
+    """AsyncGrouper.__aiter__: delegates to asyncstdlib.itertools.groupby(self._instream, self.key) -- called exactly once with exactly these two arguments --
+    and yields everything that async iterator yields, in order, nothing else (the sync Grouper's contract: `yield from itertools.groupby(source, key)`)."""
+    prop = 'C16'
+    file = FA
+    qual = 'AsyncGrouper.__aiter__'
+    trusted = ('asyncstdlib.itertools.groupby(aiterable, key): consecutive elements with equal key form one (key, group) pair, lazily (same meaning as itertools.groupby)',)
+    canaries = (('key function dropped', 'groupby(self._instream, self.key)', 'groupby(self._instream)', 'delegates'),
+                ('groups dropped', '            yield v', '            pass', 'invariant preserved'),)
+
+    def setup(self, ex):
+        st = St()
+        self.ins, self.key = z3.Const('instream', Val), z3.Const('key', Val)
+        self.mk_self(ex, st, key=self.key)                   # self.src stands for the iterator groupby returns
+        st.env['self'].set(st, '_instream', self.ins)              # the source itself is opaque here: only groupby reads it
+        st.ghost['gb_calls'] = z3.IntVal(0)
+        st.ghost['gb_ok'] = z3.BoolVal(True)
+        ex.globals['asyncstdlib'] = Module('asyncstdlib')
+
+        def f(ex2, st2, args, kwargs, node):
+            st2 = st2.fork()
+            ok = len(args) == 2 and not kwargs
+            st2.ghost['gb_calls'] = st2.ghost['gb_calls'] + 1
+            st2.ghost['gb_ok'] = z3.And(st2.ghost['gb_ok'], z3.BoolVal(ok),
+                                        *( [box(ex2, args[0]) == self.ins, box(ex2, args[1]) == self.key] if ok else []))
+            return [('ok', st2, self.src)]
+        ex.globals['asyncstdlib.itertools.groupby'] = Fn(f, trusted=self.trusted[0])
+        return st
+
+    @property
+    def loops(self):
+        return {0: LoopSpec(inv=lambda s, ex: z3.And(self.live(s), self.out(s) == self.seen(s), s.ghost['gb_calls'] == 1, s.ghost['gb_ok']))}
+
+    def post(self, ex, outs):
+        for k, s, p in outs:
+            if k in ('normal', 'return'):
+                ex.oblige(s, 'exit: delegates to asyncstdlib.itertools.groupby(source, key) exactly once and yields everything it yields, nothing else',
+                          z3.And(s.ghost['gb_calls'] == 1, s.ghost['gb_ok'], self.out(s) == self.seen(s), self.src.done(s)))
+
+
+UNITS = [AsyncMapperIter, AsyncMapperIterCoro, AsyncFilterIter, AsyncFilterIterCoro, AsyncHeaderIter, AsyncTailerIter, AsyncBatcherIter, AsyncUnbatcherIter, AsyncUnbatcherIterAsyncElems, AsyncShufflerIter, AsyncGrouperIter]
+
+
+# ================================================================ AsyncStream.<op>(...) builders: same contract as Stream.<op> (append exactly one lazy stage over the previous one)
+from contracts.c03 import BuilderUnit, T, ClassCtor      # noqa: E402
+
+ASYNC_OPS = ('AsyncMapper', 'AsyncFilter', 'AsyncShuffler', 'AsyncHeader', 'AsyncTailer', 'AsyncGrouper', 'AsyncBatcher', 'AsyncUnbatcher', 'AsyncBuffer')
+
+
+class AsyncBuilderUnit(BuilderUnit):
+    prop = 'C16'
+    file = FA
+
+    def extra_setup(self, ex, st):
+        for n in ASYNC_OPS:
+            self.C[n] = ClassCtor(n)
+            ex.globals[n] = self.C[n]
+
+
+def mk_abuilder(name, expect, canaries=()):
+    return type('ABuild_' + name, (AsyncBuilderUnit,), dict(qual=f'AsyncStream.{name}', expect=staticmethod(expect), canaries=canaries))
+
+
+AB_map = mk_abuilder('map', lambda C, last, P, kw: T(C, 'AsyncMapper', [last, P['func']], kw),
+                     canaries=(('wraps the source instead of the previous stage', 'AsyncMapper(self.streamlets[-1], func, **kwargs)', 'AsyncMapper(self.streamlets[0], func, **kwargs)', 'appends exactly one'),
+                               ('keyword arguments of func dropped', 'AsyncMapper(self.streamlets[-1], func, **kwargs)', 'AsyncMapper(self.streamlets[-1], func)', 'appends exactly one')))
+AB_filter = mk_abuilder('filter', lambda C, last, P, kw: T(C, 'AsyncFilter', [last, P['func']], kw),
+                        canaries=(('filter builds a mapper', 'AsyncFilter(self.streamlets[-1], func, **kwargs)', 'AsyncMapper(self.streamlets[-1], func, **kwargs)', 'appends exactly one'),))
+AB_shuffle = mk_abuilder('shuffle', lambda C, last, P, kw: T(C, 'AsyncShuffler', [last], buffer_size=P['buffer_size']))
+AB_head = mk_abuilder('head', lambda C, last, P, kw: T(C, 'AsyncHeader', [last, P['n']]),
+                      canaries=(('head builds a tailer', 'AsyncHeader(self.streamlets[-1], n)', 'AsyncTailer(self.streamlets[-1], n)', 'appends exactly one'),))
+AB_tail = mk_abuilder('tail', lambda C, last, P, kw: T(C, 'AsyncTailer', [last, P['n']]),
+                      canaries=(('tail builds a header', 'AsyncTailer(self.streamlets[-1], n)', 'AsyncHeader(self.streamlets[-1], n)', 'appends exactly one'),))
+AB_groupby = mk_abuilder('groupby', lambda C, last, P, kw: T(C, 'AsyncGrouper', [last, P['key']], kw))
+AB_batch = mk_abuilder('batch', lambda C, last, P, kw: T(C, 'AsyncBatcher', [last, P['batch_size']]))
+AB_unbatch = mk_abuilder('unbatch', lambda C, last, P, kw: T(C, 'AsyncUnbatcher', [last]))
+AB_buffer = mk_abuilder('buffer', lambda C, last, P, kw: T(C, 'AsyncBuffer', [last, P['maxsize']]))
+
+UNITS_ABUILD = [AB_map, AB_filter, AB_shuffle, AB_head, AB_tail, AB_groupby, AB_batch, AB_unbatch, AB_buffer]
+UNITS += UNITS_ABUILD
+
+
+# ================================================================ __init__ of the async operator classes: store their arguments (what the __aiter__ contracts read back)
+from contracts.c03 import InitUnit      # noqa: E402
+
+
+def mk_ainit(cls, fields, partial_field=None, int_params=(), requires=None, canaries=()):
+    return type(cls + 'Init', (InitUnit,), dict(prop='C16', file=FA, qual=f'{cls}.__init__', fields=fields, partial_field=partial_field,
+                                                 int_params=int_params, requires=staticmethod(requires) if requires else None, canaries=canaries))
+
+
+AsyncMapperInit = mk_ainit('AsyncMapper', {'_instream': 'instream'}, ('func', 'func'),
+                           canaries=(('kwargs dropped', '            func = functools.partial(func, **kwargs)', '            pass', 'stores its arguments'),))
+AsyncFilterInit = mk_ainit('AsyncFilter', {'_instream': 'instream'}, ('func', 'func'),
+                           canaries=(('kwargs dropped', 'functools.partial(func, **kwargs) if kwargs else func', 'func', 'stores its arguments'),))
+AsyncHeaderInit = mk_ainit('AsyncHeader', {'_instream': 'instream', 'n': 'n'}, int_params=('n',), requires=lambda P: P['n'] > 0,
+                           canaries=(('stores n+1', 'self.n = n', 'self.n = n + 1', 'stores its arguments'),))
+AsyncTailerInit = mk_ainit('AsyncTailer', {'_instream': 'instream', 'n': 'n'}, int_params=('n',), requires=lambda P: P['n'] > 0)
+AsyncGrouperInit = mk_ainit('AsyncGrouper', {'_instream': 'instream'}, ('key', 'key'))
+AsyncBatcherInit = mk_ainit('AsyncBatcher', {'_instream': 'instream', '_batch_size': 'batch_size'}, int_params=('batch_size',),
+                            requires=lambda P: P['batch_size'] > 0)
+AsyncUnbatcherInit = mk_ainit('AsyncUnbatcher', {'_instream': 'instream'})
+AsyncShufflerInit = mk_ainit('AsyncShuffler', {'_instream': 'instream', '_buffersize': 'buffer_size'}, int_params=('buffer_size',),
+                             requires=lambda P: P['buffer_size'] > 0)
+
+UNITS_AINIT = [AsyncMapperInit, AsyncFilterInit, AsyncHeaderInit, AsyncTailerInit, AsyncGrouperInit, AsyncBatcherInit, AsyncUnbatcherInit, AsyncShufflerInit]
+UNITS += UNITS_AINIT
+
+
+# ================================================================ AsyncStream core: same contracts as Stream.__init__ / __iter__ / drain
+from contracts.c03 import StreamInit, StreamIter, StreamDrain, IterModel, iter_of      # noqa: E402
+from pyvc.core import SymMethod      # noqa: E402
+
+
+class AsyncStreamInit(StreamInit):
+    prop = 'C16'
+    file = FA
+    qual = 'AsyncStream.__init__'
+    canaries = (('source stored twice', 'self.streamlets: list[AsyncIterable] = [instream]', 'self.streamlets: list[AsyncIterable] = [instream, instream]', 'nothing consumed'),)
+
+
+class AIterModel(IterModel):
+    def getattr(self, ex, st, base, attr, node):
+        if attr == '__aiter__':
+            return [('ok', st, SymMethod(self, base, attr))]
+        raise Unsupported(f'streamlet.{attr}')
+
+
+class AsyncStreamAiter(StreamIter):
+    prop = 'C16'
+    file = FA
+    qual = 'AsyncStream.__aiter__'
+    canaries = (('iterates the source, not the pipeline', 'self.streamlets[-1].__aiter__()', 'self.streamlets[0].__aiter__()', 'iterates the last streamlet'),)
+
+    def setup(self, ex):
+        st = super().setup(ex)
+        ex.sym_models['self.streamlets[-1]'] = AIterModel()
+        ex.sym_models['self.streamlets[0]'] = AIterModel()
+        return st
+
+
+class AsyncStreamDrain(StreamDrain):
+    prop = 'C16'
+    file = FA
+    qual = 'AsyncStream.drain'
+    assumed_contracts = ('aiter(self) yields the pipeline output: unit C16:AsyncStream.__aiter__',)
+
+
+UNITS_ACORE = [AsyncStreamInit, AsyncStreamAiter, AsyncStreamDrain]
+UNITS += UNITS_ACORE
+
+
+# AsyncStream.collect (`[x async for x in self]`) is NOT under contract: the engine has no model of an async list comprehension over a source.
